@@ -82,7 +82,9 @@ func (g *Gen) instr(st *State, ins ssa.Instruction) {
 		}
 		r := g.allocRef(st, x.Comment)
 		g.val[x] = r
+		g.storeFresh = true
 		g.storeAt(st, r, et, "", g.sc.sorts.zero(et))
+		g.storeFresh = false
 		g.initGhostFields(st, et, r)
 	case *ssa.FieldAddr:
 		if g.localPathOf(x) != nil {
@@ -139,7 +141,9 @@ func (g *Gen) instr(st *State, ins ssa.Instruction) {
 			g.refusef("store to const global %s", gl.Name())
 			return
 		}
+		g.storeFresh = g.isFreshRoot(x.Addr)
 		g.storeAt(st, g.term(x.Addr), x.Val.Type(), g.leafTagFor(x.Addr, x.Val.Type()), g.term(x.Val))
+		g.storeFresh = false
 	case *ssa.Lookup:
 		g.lookup(st, x)
 	case *ssa.MapUpdate:
@@ -245,6 +249,7 @@ func (g *Gen) zeroSliceCells(st *State, arr string, et types.Type) {
 					g.sc.emit("(assert (forall ((r Ref)) (! (= (select %s r) (ite (= (rb r) (rb %s)) (select %s r) (select %s r))) :pattern ((select %s r)))))", n, arr, n, cur, n)
 					g.sc.emit("(assert (forall ((i Int)) (! (= (select %s %s) %s) :pattern ((select %s %s)))))", n, fmt.Sprintf("(fld %s %d)", path("(idx "+arr+" i)"), ii), g.sc.sorts.zero(ft), n, fmt.Sprintf("(fld %s %d)", path("(idx "+arr+" i)"), ii))
 					st.mem[tag] = n
+					g.sc.oldEq[n] = g.sc.oldBase(cur)
 				}
 			}
 		default:
@@ -257,6 +262,7 @@ func (g *Gen) zeroSliceCells(st *State, arr string, et types.Type) {
 			g.sc.emit("(assert (forall ((r Ref)) (! (=> (not (= (rb r) (rb %s))) (= (select %s r) (select %s r))) :pattern ((select %s r)))))", arr, n, cur, n)
 			g.sc.emit("(assert (forall ((i Int)) (! (= (select %s %s) %s) :pattern ((select %s %s)))))", n, path("(idx "+arr+" i)"), g.sc.sorts.zero(t), n, path("(idx "+arr+" i)"))
 			st.mem[tag] = n
+			g.sc.oldEq[n] = g.sc.oldBase(cur)
 		}
 	}
 	leafZero(et, func(b string) string { return b })
